@@ -353,3 +353,62 @@ func VerifC01IdentityContainers() {
 	verifAssert(err == nil, "no error")
 	verifAssert(vm.frame.Stack[4] == py.Object(py.NewBool(same == (k == PyCmp_IS))), "identity of containers")
 }
+
+// unpacking: the targets receive the items left to right (TOS is the first target)
+//
+//verif:property C01
+//verif:runinit github.com/go-python/gpython/vm.init#2
+//verif:expect ran
+func VerifC01Unpack() {
+	VReset(1)
+	vm, t := vFrame(2)
+	n := verifChoice("n", 6)
+	items := make([]py.Object, n)
+	for i := range items {
+		items[i] = &VTok{ID: 30 + i}
+	}
+	var src py.Object
+	switch verifChoice("src", 2) {
+	case 0:
+		src = py.Tuple(items)
+	default:
+		src = py.NewListFromItems(items)
+	}
+	vm.frame.Stack = append(vm.frame.Stack, src)
+	star := verifChoice("star", 2) == 1
+	before := verifChoice("before", 3)
+	after := 0
+	var err error
+	if star {
+		after = verifChoice("after", 3)
+		err = jumpTable[UNPACK_EX](vm, int32(before|after<<8))
+	} else {
+		err = jumpTable[UNPACK_SEQUENCE](vm, int32(before))
+	}
+	verifReach("ran")
+	if (!star && before != n) || (star && before+after > n) {
+		verifAssert(err != nil, "wrong number of values raises")
+		return
+	}
+	verifAssert(err == nil, "no error")
+	st := vm.frame.Stack
+	pop := func() py.Object {
+		o := st[len(st)-1]
+		st = st[:len(st)-1]
+		return o
+	}
+	for i := 0; i < before; i++ {
+		verifAssert(pop() == items[i], "leading targets get the first items in order")
+	}
+	if star {
+		l, ok := pop().(*py.List)
+		verifAssert(ok && len(l.Items) == n-before-after, "the starred target gets a list of the middle items")
+		for i := range l.Items {
+			verifAssert(l.Items[i] == items[before+i], "middle items in order")
+		}
+		for i := 0; i < after; i++ {
+			verifAssert(pop() == items[n-after+i], "trailing targets get the last items in order")
+		}
+	}
+	verifAssert(len(st) == 2 && st[0] == t[0] && st[1] == t[1], "the stack below is untouched")
+}
